@@ -38,7 +38,7 @@ pub fn run(ctx: &mut Ctx) {
     // ---------------------------------------------------------------- constant F0
     let n = ctx.n(1200, 20000);
     ctx.run_cases("constant", n, false, |ctx, rng, idx| {
-        let rate = RATES[idx % 6];
+        let rate = if idx % 7 == 6 { rng.range(8000, 96000) } else { RATES[idx % 6] };
         let fperiod = rng.range(40, 480);
         let f0 = match idx % 6 {
             0 => MIN_F0,
@@ -143,7 +143,7 @@ pub fn run(ctx: &mut Ctx) {
     // ---------------------------------------------------------------- unvoiced noise statistics
     let n = ctx.n(24, 200);
     ctx.run_cases("noise", n, false, |ctx, rng, idx| {
-        let rate = RATES[idx % 6];
+        let rate = if idx % 7 == 6 { rng.range(8000, 96000) } else { RATES[idx % 6] };
         let fperiod = rng.range(40, 480);
         let frames = (40000 / fperiod + 1) * (1 + idx % 3);
         let x = render(rate, fperiod, 0, &vec![NODATA; frames], &[]);
@@ -175,7 +175,7 @@ pub fn run(ctx: &mut Ctx) {
     // ---------------------------------------------------------------- glides and V/UV switches
     let n = ctx.n(1200, 20000);
     ctx.run_cases("glide", n, false, |ctx, rng, idx| {
-        let rate = RATES[idx % 6];
+        let rate = if idx % 7 == 6 { rng.range(8000, 96000) } else { RATES[idx % 6] };
         let fperiod = rng.range(40, 480);
         let frames = rng.range(4, 40);
         // random F0 walk with unvoiced gaps
@@ -339,7 +339,7 @@ pub fn run(ctx: &mut Ctx) {
     // ---------------------------------------------------------------- mixed excitation (low-pass stream)
     let n = ctx.n(800, 15000);
     ctx.run_cases("mixed", n, false, |ctx, rng, idx| {
-        let rate = RATES[idx % 6];
+        let rate = if idx % 7 == 6 { rng.range(8000, 96000) } else { RATES[idx % 6] };
         let fperiod = rng.range(40, 240);
         let frames = rng.range(3, 14);
         let l = 2 * (idx % 16) + 1; // odd orders 1..31
@@ -360,6 +360,26 @@ pub fn run(ctx: &mut Ctx) {
                 let mut h: Vec<f64> = (0..l).map(|k| rng.normal() * 0.3 / (1.0 + (k as f64 - c as f64).abs())).collect();
                 if rng.chance(0.3) {
                     h[c] += 0.5;
+                }
+                // taps that are exactly zero (the bundled voice has two): a few random ones, the
+                // centre tap, everything but the centre, or the whole row
+                match idx % 10 {
+                    3 => {
+                        for _ in 0..1 + l / 4 {
+                            let k = rng.below(l);
+                            h[k] = 0.0;
+                        }
+                    }
+                    5 => h[c] = 0.0,
+                    7 => {
+                        for (k, x) in h.iter_mut().enumerate() {
+                            if k != c {
+                                *x = 0.0;
+                            }
+                        }
+                    }
+                    9 => h.iter_mut().for_each(|x| *x = 0.0),
+                    _ => {}
                 }
                 h
             })
